@@ -68,7 +68,17 @@ Definition chase_model (depth0 chain_len loop_at loop_to : N) : N * N :=
 (* values carried in the context *)
 Record cx := mk_cx { cx_be : bool; cx_chase : nat; cx_dname : nat; cx_nsl : bool }.
 (* what the context of a sub-pipeline run carries: queryerDepthKey and the rest *)
-Record slabel := mk_sl { sl_nest : nat; sl_cx : cx }.
+(* mk_sl: a run of the sub-pipeline (Queryer.Query); mk_dl: a direct sub-resolution (Resolver.subQuery, the DS / DNSKEY
+   fetches of validation) — it does not pass the sub-pipeline and leaves the context as it is *)
+Inductive slabel := mk_sl (nest : nat) (c : cx) | mk_dl (nest : nat) (c : cx).
+Definition sl_nest (l : slabel) : nat := match l with mk_sl n _ | mk_dl n _ => n end.
+Definition sl_cx (l : slabel) : cx := match l with mk_sl _ c | mk_dl _ c => c end.
+Definition sl_direct (l : slabel) : bool := match l with mk_sl _ _ => false | mk_dl _ _ => true end.
+(* the context a detached job's queries start from: best-effort, marked as a nameserver lookup, every depth counter
+   at 0 (context.Background() plus the ledger and the attempt guard) *)
+Definition cx_fresh : cx := mk_cx true O O true.
+Definition cx_eqb (a b : cx) : bool :=
+  Bool.eqb (cx_be a) (cx_be b) && (cx_chase a =? cx_chase b)%nat && (cx_dname a =? cx_dname b)%nat && Bool.eqb (cx_nsl a) (cx_nsl b).
 
 Inductive prog (A : Type) : Type :=
 | Ret (a : A)
@@ -162,13 +172,35 @@ Definition child_cx_ok (v6 : bool) (p c : cx) : bool :=
   || (* DNAME target follow-up (Resolver.checkDname): DNAME depth + 1, only below maxDnameDepth *)
    ((cx_dname c =? S (cx_dname p))%nat && (N.of_nat (cx_dname p) <? max_dname_depth) &&
     (cx_chase c =? cx_chase p)%nat && Bool.eqb (cx_nsl c) (cx_nsl p) && Bool.eqb (cx_be c) (cx_be p))
-  || (* nameserver address lookup (lookupNSAddrV4/V6): marked contextKeyNSL; the IPv6 walk is best-effort *)
+  || (* nameserver address lookup (lookupNSAddrV4/V6 from lookupV4Nss / checkHosts): marked contextKeyNSL *)
    (cx_nsl c && (cx_chase c =? cx_chase p)%nat && (cx_dname c =? cx_dname p)%nat &&
-    (Bool.eqb (cx_be c) (cx_be p) || (v6 && cx_be c))).
+    Bool.eqb (cx_be c) (cx_be p)).
+
+(* the first query of a detached IPv6 walk: nesting 1 on the fresh context, whatever run the walk was spawned from *)
+Definition detached_root (v6 : bool) (ch : slabel) : bool :=
+  v6 && negb (sl_direct ch) && (sl_nest ch =? 1)%nat && cx_eqb (sl_cx ch) cx_fresh.
 
 Definition child_ok (v6 : bool) (par ch : slabel) : bool :=
-  (sl_nest ch =? S (sl_nest par))%nat && (sl_nest ch <=? N.to_nat max_queryer_recursion)%nat &&
-  child_cx_ok v6 (sl_cx par) (sl_cx ch).
+  (negb (sl_direct ch) && (sl_nest ch =? S (sl_nest par))%nat && (sl_nest ch <=? N.to_nat max_queryer_recursion)%nat &&
+   child_cx_ok v6 (sl_cx par) (sl_cx ch))
+  || detached_root v6 ch
+  || (* a direct sub-resolution: same nesting, same context *)
+     (sl_direct ch && (sl_nest ch =? sl_nest par)%nat && cx_eqb (sl_cx ch) (sl_cx par)).
+
+(* the same, for an observer who knows each sub-run's parent directly (None: the run was started by a detached job) *)
+Definition pair_ok (v6 : bool) (pc : option slabel * slabel) : bool :=
+  match pc with
+  | (Some par, ch) => child_ok v6 par ch
+  | (None, ch) => detached_root v6 ch
+  end.
+(* the (parent, child) pairs of a properly nested event sequence *)
+Fixpoint pairs_of (cur : slabel) (st : list slabel) (tr : list event) : list (option slabel * slabel) :=
+  match tr with
+  | [] => []
+  | EvX _ _ :: r => pairs_of cur st r
+  | EvS l _ _ :: r => (Some cur, l) :: pairs_of l (cur :: st) r
+  | EvE :: r => match st with p :: st' => pairs_of p st' r | [] => [] end
+  end.
 
 (* tree_run: sub-runs nest properly and every one is a legitimate child of the run that is open when it
    starts; returns the open run and the stack below it, None on a violation *)
@@ -209,6 +241,9 @@ Inductive costs {A} : prog A -> nat -> Prop :=
 Inductive xout := XResp | XWork (e : res) | XFail.
 Inductive lres := LResp | LWork (e : res) | LErrAttempt | LErrFatal | LErrOther.
 Inductive rres := RResp | RWork (e : res) | RMaxRec | RErr.
+(* outcome of a validation: secure-or-insecure / bogus or a fetch failed / the work budget refused a sub-query *)
+Inductive vres := VOk | VFail | VWork (e : res).
+
 (* what a sub-pipeline / the client's pipeline produced *)
 Inductive reply :=
 | ReplyOk                       (* an answer (positive or negative) *)
@@ -334,25 +369,37 @@ Section Skeleton.
         end)
     end.
 
-  Section WithQueryer.
-    (* the nested Queryer: what internalExchange reaches *)
-    Variable nq : cx -> prog reply.
-    Variable c : cx.
-
-    Definition nsl_cx : cx := mk_cx (cx_be c) (cx_chase c) (cx_dname c) true.
-    Definition v6_cx : cx := mk_cx true (cx_chase c) (cx_dname c) true.
-
-    (* lookupV4Nss / checkHosts: one NS-address sub-query per glue-less host; a work-limit or
-       max-recursion error stops the walk and is returned, any other failure moves on *)
+  (* lookupV4Nss / lookupV6Nss / checkHosts: one NS-address sub-query per glue-less host through the queryer
+     [q]; a work-limit or max-recursion error stops the walk and is returned, any other failure moves on *)
+  Section NsLookups.
+    Variable q : cx -> prog reply.
     Fixpoint ns_lookups (cc : cx) (stop_on_work : bool) (h : nat) : prog (option rres) :=
       match h with
       | O => Ret None
-      | S h' => bind (nq cc) (fun r =>
+      | S h' => bind (q cc) (fun r =>
                   match r with
                   | ReplyWork e _ => if stop_on_work then Ret (Some (RWork e)) else ns_lookups cc stop_on_work h'
                   | _ => ns_lookups cc stop_on_work h'
                   end)
       end.
+  End NsLookups.
+
+  Section WithQueryer.
+    (* the nested Queryer: what internalExchange reaches *)
+    Variable nq : cx -> prog reply.
+    (* the Queryer as a detached job reaches it: processDelegation's IPv6 walk runs on context.Background() plus the
+       ledger and the attempt guard — queryerDepthKey, cnameChaseDepthKey, contextKeyDnameDepth restart at 0 there *)
+    Variable nq0 : cx -> prog reply.
+    (* DNSSEC validation of what was just received: the DS / DNSKEY sub-queries (Resolver.subQuery) it needs *)
+    Variable vq : cx -> prog vres.
+    Variable c : cx.
+
+    Definition nsl_cx : cx := mk_cx (cx_be c) (cx_chase c) (cx_dname c) true.
+
+    (* answer() / authority() / validateDelegation(): validate first; a bogus result or a failed DS/DNSKEY fetch is an
+       error, a work-limit error travels up unchanged *)
+    Definition validated (k : prog rres) : prog rres :=
+      bind (vq c) (fun v => match v with VOk => k | VFail => Ret RErr | VWork e => Ret (RWork e) end).
 
     (* Resolver.answer, DNSSEC off: the only further work is a DNAME target follow-up *)
     Definition answer_step : prog rres :=
@@ -398,7 +445,7 @@ Section Skeleton.
             | 1%nat =>                                              (* answer section *)
               match inspectb (negb nomin && (0 <? lvl)%nat) with
               | left E => rec depth nomin unch (pred lvl) n (ob_level depth nomin unch lvl E)
-              | right _ => answer_step
+              | right _ => validated answer_step
               end
             | _ =>                                                  (* authority section only *)
               Choose 7 (fun sub =>
@@ -408,7 +455,7 @@ Section Skeleton.
                   | left E => rec depth nomin unch (pred lvl) n (ob_level depth nomin unch lvl E)
                   | right _ => Ret RResp
                   end
-                | 1%nat => Ret RResp                               (* authority(): negative answer *)
+                | 1%nat => validated (Ret RResp)                   (* authority(): negative answer, denial validated *)
                 | 2%nat => Ret RErr                                (* non-progressing referral *)
                 | 3%nat =>                                         (* rs.level > nlevel: parent detection *)
                   match inspectb (negb nomin && (0 <? qmin)%nat) with
@@ -425,9 +472,9 @@ Section Skeleton.
                   | left E => Choose qmin (fun lvl' => rec (depth - N.to_nat cached_loop_depth_penalty)%nat nomin unch lvl' n (ob_penalty depth nomin unch lvl lvl' E))
                   | right _ => Ret RErr
                   end
-                | _ =>                                             (* new delegation *)
-                  Choose Fmax (fun h =>
-                    bind (ns_lookups nsl_cx true h) (fun stop =>
+                | _ =>                                             (* new delegation: validateDelegation first *)
+                  validated (Choose Fmax (fun h =>
+                    bind (ns_lookups nq nsl_cx true h) (fun stop =>
                       match stop with
                       | Some r => Ret r
                       | None =>
@@ -439,13 +486,13 @@ Section Skeleton.
                             | right _ => Ret RErr
                             end
                           | _ =>
-                            bind (if v6 then Choose Fmax (fun h6 => ns_lookups v6_cx false h6) else Ret None) (fun _ =>
+                            bind (if v6 then Choose Fmax (fun h6 => ns_lookups nq0 cx_fresh false h6) else Ret None) (fun _ =>
                               match inspectb (1 <? depth)%nat with
                               | left E => Choose Smax (fun n' => Choose qmin (fun lvl' => rec (depth - 1)%nat nomin true lvl' n' (ob_descend depth nomin unch lvl lvl' E)))
                               | right _ => Ret RErr
                               end)
                           end)
-                      end))
+                      end)))
                 end)
             end)
         | LErrAttempt =>                                           (* handleLookupError *)
@@ -466,8 +513,8 @@ Section Skeleton.
             else match inspectb unch with
                  | left E =>                                       (* ErrorCount reached 5: checkHosts *)
                    Choose Fmax (fun h =>
-                     bind (ns_lookups nsl_cx false h) (fun _ =>
-                       bind (if v6 then ns_lookups nsl_cx false h else Ret None) (fun _ =>
+                     bind (ns_lookups nq nsl_cx false h) (fun _ =>
+                       bind (if v6 then ns_lookups nq nsl_cx false h else Ret None) (fun _ =>
                          Choose 1 (fun grew =>
                            match grew with
                            | O => Ret RErr
@@ -563,20 +610,120 @@ Section Skeleton.
       Choose 1 (fun hit => match hit with O => pipeline_miss | _ => pipeline_hit end).
   End WithQueryer.
 
-  (* pipelineQueryer.Query: [qleft] = maxQueryerRecursion - depth *)
-  Fixpoint query (qleft : nat) (c : cx) : prog reply :=
-    match qleft with
-    | O => Ret ReplyLocal                                            (* ErrMaxRecursion *)
-    | S q' =>
-      DebitInt (cx_be c)
-        (SubRun (mk_sl (N.to_nat max_queryer_recursion - q') c)
-           (bind (pipeline (query q') c) (fun r =>
-              SubEnd (EnfErr (fun e => match e with ROk => Ret r | e' => Ret (ReplyWork e' true) end)))))
-        (fun e => Ret (ReplyWork e true))
-    end.
+  (* --- DNSSEC validation sub-queries.  Resolver.subQuery: answered from the store, or one internal-query debit and
+     a direct sub-resolution from the root hints with a fresh rs.depth (no pass through the sub-pipeline, no change of
+     queryerDepthKey: an observer at the head of the sub-pipeline does not see it start; the ledger does), then the
+     enforcement check.  What it fetched is validated in turn, so sub-queries nest.  The code has no counter for that
+     nesting; it ends because a nested question is either about a name with fewer labels (a DS is signed by the parent,
+     findDS walks towards the root, the root's keys are the anchor) or the very same question again, which the attempt
+     guard admits [G] more times.  [vlab lab rep] = the validation of something whose signer names have at most [lab]
+     labels, with [rep] repeats of the same question left: up to lab+1 fetches (findDS's label loop, the signer's DS, its
+     DNSKEY), each validated by a strictly smaller validation. *)
+  Variable Lmax : nat.         (* labels of a name: <= 127 on the wire *)
+  Variable G : nat.            (* repeats of one question the attempt guard admits over all endpoints *)
+
+  Section Validator.
+    Variable nq nq0 : cx -> prog reply.
+
+    Variable nest : nat.       (* queryerDepthKey of the run the validation belongs to: subQuery leaves it alone *)
+
+    Definition subq (inner : cx -> prog vres) (c : cx) : prog vres :=
+      Choose 1 (fun hit =>
+        match hit with
+        | O => Ret VOk                                             (* store.Get hit *)
+        | _ =>
+          DebitInt (cx_be c)
+            (SubRun (mk_dl nest c)
+              (Choose qmin (fun lvl0 => Choose Smax (fun nroot =>
+                 bind (resolve nq nq0 inner c maxdepth false true lvl0 nroot) (fun r =>
+                   SubEnd (EnfErr (fun e =>
+                     match e with
+                     | ROk => match r with
+                              | RResp => Choose 1 (fun ok => match ok with O => Ret VOk | _ => Ret VFail end)
+                              | RWork e' => Ret (VWork e')
+                              | _ => Ret VFail
+                              end
+                     | e' => Ret (VWork e')
+                     end)))))))
+            (fun e => Ret (VWork e))
+        end).
+
+    Fixpoint subqs (inner : cx -> prog vres) (k : nat) (c : cx) : prog vres :=
+      match k with
+      | O => Ret VOk
+      | S k' => bind (subq inner c) (fun v => match v with VOk => subqs inner k' c | other => Ret other end)
+      end.
+
+    Definition vfail : cx -> prog vres := fun _ => Ret VFail.
+    (* one validation: up to lab+1 fetches; what each fetched is validated by [vsame] (the same question again) or by
+       [vless] (a signer name with fewer labels) *)
+    Definition vstep (vsame vless : cx -> prog vres) (lab : nat) (c : cx) : prog vres :=
+      Choose (S lab) (fun k =>
+        subqs (fun c' => Choose 1 (fun same => match same with O => vsame c' | _ => vless c' end)) k c).
+    Fixpoint vrep_of (vless : cx -> prog vres) (lab rep : nat) {struct rep} : cx -> prog vres :=
+      vstep (match rep with O => vfail | S r' => vrep_of vless lab r' end) vless lab.
+    Fixpoint vlab (lab : nat) : nat -> cx -> prog vres :=
+      vrep_of (match lab with O => vfail | S l' => vlab l' G end) lab.
+  End Validator.
+
+  (* pipelineQueryer.Query: [qleft] = maxQueryerRecursion - depth.  [gen]: generations of detached jobs that start
+     within the observation window — a detached IPv6 walk starts defaultTimeout after the delegation that spawned it,
+     on a fresh context, so its queries nest from 0 again; nothing in the code bounds the number of generations except
+     the request tree's ledger (enforce mode) and the finiteness of what the adversary keeps delegating *)
+  Fixpoint queryg (gen : nat) : nat -> cx -> prog reply :=
+    fix query (qleft : nat) (c : cx) {struct qleft} : prog reply :=
+      match qleft with
+      | O => Ret ReplyLocal                                          (* ErrMaxRecursion *)
+      | S q' =>
+        let nq0 := match gen with
+                   | O => fun _ : cx => Ret ReplyNone                (* starts after the window *)
+                   | S g' => queryg g' (N.to_nat max_queryer_recursion)
+                   end in
+        DebitInt (cx_be c)
+          (SubRun (mk_sl (N.to_nat max_queryer_recursion - q') c)
+             (bind (pipeline (query q') nq0 (vlab (query q') nq0 (N.to_nat max_queryer_recursion - q') Lmax G) c) (fun r =>
+                SubEnd (EnfErr (fun e => match e with ROk => Ret r | e' => Ret (ReplyWork e' true) end)))))
+          (fun e => Ret (ReplyWork e true))
+      end.
+
+  Definition detached (gen : nat) : cx -> prog reply :=
+    match gen with O => fun _ : cx => Ret ReplyNone | S g' => queryg g' (N.to_nat max_queryer_recursion) end.
 
   (* the client's own chain: not a Query — no debit, no nesting increment *)
-  Definition client (c : cx) : prog reply := pipeline (query (N.to_nat max_queryer_recursion)) c.
+  Definition client (gen : nat) (c : cx) : prog reply :=
+    let nq := queryg gen (N.to_nat max_queryer_recursion) in
+    pipeline nq (detached gen) (vlab nq (detached gen) O Lmax G) c.
 End Skeleton.
+
+(* ---- the forwarder (middleware/forwarder ServeDNS; failover's dispatch has the same BeforeAttempt): the configured
+   upstreams one after the other; every transport attempt — the transparent TCP retry after a truncated UDP answer
+   included — first passes dnsclient's BeforeAttempt = attempt guard, then the outbound debit.  A refused debit ends the
+   request with the policy SERVFAIL built from the client's request; a refused guard tuple, an error or a
+   SERVFAIL-class reply moves on to the next upstream; when all have failed the reply is a plain SERVFAIL. *)
+Fixpoint forward (be : bool) (n : nat) : prog reply :=
+  match n with
+  | O => Ret (ReplyServfail false)
+  | S n' =>
+    Choose 1 (fun g =>
+      match g with
+      | S _ => forward be n'                                         (* the guard refuses this tuple *)
+      | O =>
+        DebitOut be
+          (Exchange (Choose 2 (fun a =>
+             match a with
+             | O => Ret ReplyOk                                      (* a useful response *)
+             | 1%nat =>                                              (* TC=1 over UDP: the same exchange again over TCP *)
+               Choose 1 (fun g2 =>
+                 match g2 with
+                 | S _ => forward be n'
+                 | O => DebitOut be
+                          (Exchange (Choose 1 (fun b => match b with O => Ret ReplyOk | _ => forward be n' end)))
+                          (fun e => Ret (ReplyWork e true))
+                 end)
+             | _ => forward be n'                                    (* error or SERVFAIL-class reply: next upstream *)
+             end)))
+          (fun e => Ret (ReplyWork e true))
+      end)
+  end.
 
 Definition cx0 : cx := mk_cx false O O false.
